@@ -100,6 +100,10 @@ var glSpecs = []glSpec{
 	{"blocktimeindex", "Index", "marshalBinary", "btMarshal"},
 	{"blocktimeindex", "Index", "unmarshalBinary", "btUnmarshal"},
 	{"compactindexsized", "Header", "Load", "ciHeaderLoad"},
+	{"gsfa/linkedlog", "uvarintReader", "ReadUvarint", "uvrReadUvarint"},
+	{"gsfa/linkedlog", "uvarintReader", "ReadByte", "uvrReadByte"},
+	{"gsfa/linkedlog", "OffsetAndSizeAndSlot", "FromReader", "oassFromReader"},
+	{"gsfa/linkedlog", "", "OffsetAndSizeAndSlotSliceFromBytes", "oassSliceFromBytes"},
 }
 
 func init() { generators = append(generators, genGoLean) }
@@ -112,7 +116,7 @@ var glExterns = map[string]glExtern{
 }
 
 // functions whose Go errors are data (they inspect, compare and return error VALUES such as io.EOF)
-var glErrData = map[string]bool{"scfMultiReadAt": true}
+var glErrData = map[string]bool{"scfMultiReadAt": true, "uvrReadUvarint": true, "uvrReadByte": true, "oassFromReader": true, "oassSliceFromBytes": true}
 
 var leanKeywords = map[string]bool{}
 
@@ -220,8 +224,61 @@ func calleeOf(p *packages.Package, call *ast.CallExpr) *types.Func {
 	fn, _ := p.TypesInfo.Uses[id].(*types.Func)
 	if fn != nil {
 		fn = fn.Origin()
+		// a method of an interface of the repository with exactly one implementation: that implementation's method
+		if sig, ok := fn.Type().(*types.Signature); ok && sig.Recv() != nil {
+			if nt := glDevirt(sig.Recv().Type()); nt != nil {
+				if o, _, _ := types.LookupFieldOrMethod(types.NewPointer(nt), true, nt.Obj().Pkg(), fn.Name()); o != nil {
+					if m, ok := o.(*types.Func); ok {
+						return m.Origin()
+					}
+				}
+			}
+		}
 	}
 	return fn
+}
+
+// glDevirt: an interface type declared in a loaded package of the repository that has exactly ONE implementing struct
+// type in its own package is translated as that struct (pointer receiver semantics: the value is threaded through the
+// calls).  Checked on every run: a second implementation makes the translation fail.
+var glDevirtCache = map[types.Type]*types.Named{}
+
+func glDevirt(t types.Type) *types.Named {
+	if r, ok := glDevirtCache[t]; ok {
+		return r
+	}
+	var res *types.Named
+	defer func() { glDevirtCache[t] = res }()
+	nt, ok := t.(*types.Named)
+	if !ok || nt.Obj().Pkg() == nil || pkgs[nt.Obj().Pkg().Path()] == nil {
+		return nil
+	}
+	it, ok := nt.Underlying().(*types.Interface)
+	if !ok || it.NumMethods() == 0 {
+		return nil
+	}
+	sc := nt.Obj().Pkg().Scope()
+	var impls []*types.Named
+	for _, name := range sc.Names() {
+		tn, ok := sc.Lookup(name).(*types.TypeName)
+		if !ok {
+			continue
+		}
+		cand, ok := tn.Type().(*types.Named)
+		if !ok || cand == nt {
+			continue
+		}
+		if _, isStruct := cand.Underlying().(*types.Struct); !isStruct {
+			continue
+		}
+		if types.Implements(cand, it) || types.Implements(types.NewPointer(cand), it) {
+			impls = append(impls, cand)
+		}
+	}
+	if len(impls) == 1 {
+		res = impls[0]
+	}
+	return res
 }
 
 func genGoLean() {
@@ -433,6 +490,9 @@ func (g *glGen) analyse() {
 }
 
 func refLike(t types.Type) bool {
+	if glDevirt(t) != nil {
+		return true
+	}
 	switch u := t.Underlying().(type) {
 	case *types.Slice:
 		return true
@@ -472,6 +532,9 @@ func (g *glGen) leanTypeOK(t types.Type) (string, bool) {
 	if nt, ok := t.(*types.Named); ok {
 		if _, isStruct := nt.Underlying().(*types.Struct); isStruct {
 			return g.structName(nt), true
+		}
+		if dv := glDevirt(nt); dv != nil {
+			return g.structName(dv), true
 		}
 	}
 	if a, ok := t.(*types.Alias); ok {
